@@ -13,7 +13,19 @@
     generated program by the harness.  The reader's status filter (closed issues) belongs to C12's reader model; the
     end-to-end correspondence exercises it with RESOLVED/CLOSED decoys.
 
+    Reading guide (review A16).  C06_select_iff* are CHARACTERISATIONS: they unfold the model's matching functions into
+    arithmetic (same lines, column offsets in the extracted tolerance sets, containment) - useful as lemmas, definitional in
+    content.  The statements with content are: C06_unique_site* (a location determines its node under a decidable
+    discipline), C06_subset_exact_any (all three filter overrides, the result list being the site reports followed by any
+    stale/unmatched results: selected <-> in S), C06_foreign_ignored + C06_no_findings_short_circuit (the per-file list, over
+    the nested-dict model of ResultSet), C06_findings_by_line / C06_findings_own_lines (which findings an entry carries,
+    incl. DefectDojo), C06_no_foreign_finding.  C06_finding_identity speaks about `finding_of`, a two-line transcription of
+    `Finding(id=...)` in SonarResult.from_result whose variant is extracted by the translator (sonar_finding_id); its tie is
+    the end-to-end check that compares findings[].id with the issue key.
+
     Refuted on the code as written (genuine, listed in findings/C06.json):
+      C06_fuzzy_enclosing_refuted (kf_fuzzy_enclosing_call_selected:<codemod>)  the fuzzy override also selects every call
+                                                           that encloses the reported call on the same line
       C06_same_line_refuted   (kf_same_line_sites)        findings are attached by line
       C06_dd_same_line_refuted (kf_dd_same_line_sites)    DefectDojo results select every candidate on the line
       C06_dd_inner_line_refuted (kf_dd_inner_line_finding_dropped)  a DefectDojo result on an inner line of a node selects
@@ -22,14 +34,14 @@
 From CM Require Import Base.Dict Model.Location Spec.LocationSpec Proofs.LocationFacts Generated.Tables.
 Local Open Scope Z_scope.
 
-Definition T_now : ltab := mkltab loc_tol_start loc_tol_end sonar_tuple_widen.
+Definition T_now : ltab := mkltab loc_tol_start loc_tol_end sonar_tuple_widen line_filter_rule.
 
 (** selected <=> some result location reports the node (same lines, both columns within the tabulated tolerance; widened
     for a Sonar result on a Tuple; line containment for DefectDojo) /\ the line filter admits the node *)
 Theorem C06_select_iff : forall rs excl inc n,
   node_is_selected T_now FDefault (Some rs) excl inc n = true <->
   (exists r l, In r rs /\ In l (rlocs r) /\ reports T_now (rcls r) (nkind n) (nspan n) l) /\
-  line_filter excl inc (nspan n) = true.
+  line_filter T_now excl inc (nspan n) = true.
 Proof. exact (select_iff T_now). Qed.
 Print Assumptions C06_select_iff.
 
@@ -41,7 +53,7 @@ Theorem C06_select_iff_fuzzy_call : forall results excl inc n,
      pline (sstart (nspan n)) = pline (lstart l) /\ pline (send (nspan n)) = pline (lend l) /\
      pcol (sstart (nspan n)) <= pcol (lstart l) <= pcol (send (nspan n)) + 1 /\
      pcol (sstart (nspan n)) <= pcol (lend l) <= pcol (send (nspan n)) + 1) /\
-  line_filter excl inc (nspan n) = true.
+  line_filter T_now excl inc (nspan n) = true.
 Proof. exact (select_fuzzy_iff T_now). Qed.
 Print Assumptions C06_select_iff_fuzzy_call.
 
@@ -50,7 +62,7 @@ Theorem C06_select_iff_stmt_line : forall rs excl inc n,
   nkind n = KStmtLine /\
   (exists r l, In r rs /\ In l (rlocs r) /\
      pline (sstart (nspan n)) = pline (lstart l) /\ pline (send (nspan n)) = pline (lend l)) /\
-  line_filter excl inc (nspan n) = true.
+  line_filter T_now excl inc (nspan n) = true.
 Proof. exact (select_mktemp_iff T_now). Qed.
 Print Assumptions C06_select_iff_stmt_line.
 
@@ -99,10 +111,38 @@ Print Assumptions C06_unique_site_stmt_line.
 Theorem C06_subset_exact : forall c cands S rs excl inc,
   discipline T_now c cands = true ->
   Forall2 (site_report T_now c) S rs -> incl S cands ->
-  forall n, In n cands -> line_filter excl inc (nspan n) = true ->
+  forall n, In n cands -> line_filter T_now excl inc (nspan n) = true ->
     (node_is_selected T_now FDefault (Some rs) excl inc n = true <-> In n S).
 Proof. exact (subset_exact T_now). Qed.
 Print Assumptions C06_subset_exact.
+
+(** The same for every filter override (default / fuzzy-call / statement-line), with any number of stale or unmatched
+    results after the site reports: [discipline_for] is the decidable hypothesis of the override (span discipline over all
+    Call/Assign/ClassDef and tested nodes; column-apart calls; line-apart statements). *)
+Theorem C06_subset_exact_any : forall o c cands tested S rs U excl inc,
+  discipline_for T_now o c cands tested = true -> incl tested cands -> (forall n, In n tested -> wf_lines n) ->
+  Forall2 (site_report_o T_now o c) S rs -> incl S tested -> Forall (unmatched T_now o tested) U ->
+  forall n, In n tested -> line_filter T_now excl inc (nspan n) = true ->
+    (node_is_selected T_now o (Some (rs ++ U)) excl inc n = true <-> In n S).
+Proof. exact (subset_exact_any T_now). Qed.
+Print Assumptions C06_subset_exact_any.
+
+(** The hypothesis fails as soon as the reported call sits inside another call on the same line, and then the fuzzy
+    override selects both: `v = str(jwt.decode(t, "k", verify=False))` with the issue on `verify=False`. *)
+Definition z_inner := mknode 1 KCall (mkspan (mkpos 2 9) (mkpos 2 43)).
+Definition z_outer := mknode 2 KCall (mkspan (mkpos 2 5) (mkpos 2 44)).
+Definition z_r := mkresult 1 RSonar [114]%N [mkloc [97]%N (mkpos 2 30) (mkpos 2 42)] None.
+Theorem C06_fuzzy_enclosing_refuted :
+  exists inner outer r, inner <> outer /\ site_report_o T_now FFuzzyCall RSonar inner r /\
+    fuzzy_discipline [inner; outer] = false /\
+    node_is_selected T_now FFuzzyCall (Some [r]) [] [] inner = true /\
+    node_is_selected T_now FFuzzyCall (Some [r]) [] [] outer = true.
+Proof.
+  exists z_inner, z_outer, z_r. split; [discriminate |].
+  split; [split; [discriminate | split; [eexists; reflexivity | vm_compute; reflexivity]] |].
+  repeat split; vm_compute; reflexivity.
+Qed.
+Print Assumptions C06_fuzzy_enclosing_refuted.
 
 (** Results of another rule, in another file, or absent from the result set never reach the transformer of this file:
     the per-file list holds exactly the results of the requested rules with a location in that file ... *)
@@ -164,6 +204,24 @@ Qed.
 Theorem C06_findings_by_line : C06_findings_by_line_statement findings_attach_rule.
 Proof. exact (C06_findings_by_line_all findings_attach_rule). Qed.
 Print Assumptions C06_findings_by_line.
+
+(** For every class, DefectDojo included: when each location lies within the lines of its site, the reported location of
+    n starts on n's start line, and no other reported site shares n's lines, the entry of n carries exactly r's finding. *)
+Theorem C06_findings_own_lines : forall S1 n S2 rs1 r rs2,
+  wf_lines n -> Forall2 within_lines S1 rs1 -> on_start_line n r -> Forall2 within_lines S2 rs2 ->
+  (forall m, In m (S1 ++ S2) -> lines_apart (nspan n) (nspan m) = true) ->
+  report_change findings_attach_rule (Some (rs1 ++ r :: rs2)) n = mkchange (pline (sstart (nspan n))) (finding_list r).
+Proof. destruct findings_attach_rule. exact own_finding_lines. Qed.
+Print Assumptions C06_findings_own_lines.
+
+(** No change entry of a file carries a finding of a rule the codemod did not ask for (readers' invariant: the finding
+    of a result names the result's rule - Finding(rule=Rule(id=rule_id)) in every reader). *)
+Theorem C06_no_foreign_finding : forall l rules file n f,
+  (forall r, In r l -> wf_finding r) ->
+  In f (ch_findings (report_change findings_attach_rule (findings_for_rule (Some (of_results l)) rules file) n)) ->
+  In (frule f) rules.
+Proof. exact (no_foreign_finding findings_attach_rule). Qed.
+Print Assumptions C06_no_foreign_finding.
 
 (** Witnesses.  Two reported sites on one line `v1 = f(); v2 = f()` (Sonar offsets): separated spans, each selected by
     its own result only, but both change entries carry both findings. *)
@@ -237,7 +295,7 @@ Proof. exact (C06_finding_identity_all sonar_finding_id). Qed.
 Print Assumptions C06_finding_identity.
 
 (** Non-vacuity: three sites at shifted columns (semgrep convention, 1-based columns), the middle one not reported. *)
-Definition x_T := mkltab [-1; 0] [-1; 0] (-1, 1).
+Definition x_T := mkltab [-1; 0] [-1; 0] (-1, 1) ExcludeThenInclude.
 Definition x_n1 := mknode 1 KCall (mkspan (mkpos 3 4) (mkpos 3 19)).
 Definition x_n2 := mknode 2 KCall (mkspan (mkpos 5 15) (mkpos 5 30)).
 Definition x_n3 := mknode 3 KCall (mkspan (mkpos 7 8) (mkpos 7 23)).
@@ -255,4 +313,22 @@ Proof.
   split; [vm_compute; reflexivity|]. split.
   - repeat constructor; try reflexivity; eexists; (split; [reflexivity|vm_compute; reflexivity]).
   - repeat split; vm_compute; reflexivity.
+Qed.
+
+(** Non-vacuity of C06_subset_exact_any: fuzzy override, two calls on different lines, the second reported through a
+    location on one of its keywords, plus a stale result that answers to neither. *)
+Definition u_c1 := mknode 1 KCall (mkspan (mkpos 3 5) (mkpos 3 40)).
+Definition u_c2 := mknode 2 KCall (mkspan (mkpos 5 9) (mkpos 5 44)).
+Definition u_r2 := mkresult 2 RSonar w_rule [mkloc w_file (mkpos 5 30) (mkpos 5 42)] (Some w_f2).
+Definition u_stale := mkresult 9 RSonar w_rule [mkloc w_file (mkpos 8 1) (mkpos 8 4)] (Some w_f1).
+Example C06_subset_any_example :
+  discipline_for T_now FFuzzyCall RSonar [u_c1; u_c2] [u_c1; u_c2] = true /\
+  Forall2 (site_report_o T_now FFuzzyCall RSonar) [u_c2] [u_r2] /\
+  Forall (unmatched T_now FFuzzyCall [u_c1; u_c2]) [u_stale] /\
+  map nid (List.filter (node_is_selected T_now FFuzzyCall (Some ([u_r2] ++ [u_stale])) [] []) [u_c1; u_c2]) = [2%N].
+Proof.
+  split; [vm_compute; reflexivity |]. split.
+  - constructor; [| constructor]. split; [discriminate | split; [eexists; reflexivity | vm_compute; reflexivity]].
+  - split; [| vm_compute; reflexivity].
+    constructor; [| constructor]. intros n [<- | [<- | []]]; vm_compute; reflexivity.
 Qed.
